@@ -114,6 +114,27 @@ def setup_includes(scratch):
     return inc
 
 
+def _inline_on_return_type():
+    """scanpipe.build_type puts FUNCTION_INLINE on the function type; the real parser (scannerparser.y) puts the
+    function specifier on the declaration specifiers, i.e. the RETURN type, which is where
+    Transformer._create_function looks (symbol.base_type.base_type.function_specifier).  Without this no
+    generated namespace ever contains <function-inline> / <method-inline>.  Idempotent."""
+    orig = scanpipe.build_type
+    if getattr(orig, '_c07_inline', False):
+        return
+
+    def build_type(t, ctx):
+        r = orig(t, ctx)
+        try:
+            if t.get('k') == 'func' and t.get('inline') and r.base_type is not None:
+                r.base_type.function_specifier |= scanpipe.mods().sourcescanner.FUNCTION_INLINE
+        except AttributeError:
+            pass
+        return r
+    build_type._c07_inline = True
+    scanpipe.build_type = build_type
+
+
 # ------------------------------------------------------------------ the real read/write cycle
 class CycleError(Exception):
     def __init__(self, stage, exc, tb):
@@ -665,7 +686,7 @@ class NsGen(object):
             k = rng.choice(['int', 'int', 'basic', 'str', 'str_out', 'int_out', 'rec', 'obj', 'enum', 'flags', 'alias',
                             'list', 'slist', 'hash', 'garray', 'gptrarray', 'gbytearray', 'carray_len', 'carray_fixed',
                             'carray_zt', 'callback', 'gpointer', 'unknown', 'value', 'gtype', 'typeann', 'bytes',
-                            'rec_out', 'valist', 'noname', 'hash_array'])
+                            'rec_out', 'valist', 'noname', 'hash_array', 'nested_array'])
             self.hit('param:' + k)
             anns = []
             if k == 'int':
@@ -812,6 +833,12 @@ class NsGen(object):
                 if self.coin(0.3):
                     anns.append('(element-type %s)' % rng.choice(['utf8', 'filename']))
                 add(nm('strv'), P(P(T('char'))), anns)
+            elif k == 'nested_array':
+                # char ***: an array of string arrays (<array><array><type/></array></array>)
+                anns.append(rng.choice(['(array zero-terminated=1)', '(array)', '(array fixed-size=2)']))
+                if self.coin(0.4):
+                    anns.append('(transfer %s)' % rng.choice(['none', 'container', 'full']))
+                add(nm('strvv'), P(P(P(T('char')))), anns)
             elif k == 'callback':
                 if not self.callbacks or for_callback:
                     continue
@@ -953,6 +980,9 @@ class NsGen(object):
             anns.append('(element-type %s)' % rng.choice(['gint', 'utf8']))
             anns.append('(transfer %s)' % rng.choice(['none', 'container', 'full']))
             return P(T(rng.choice(['GArray', 'GPtrArray']))), anns
+        if self.coin(0.4):
+            anns.append('(skip)')
+            self.hit('ret:unknown-skipped')
         return P(T(self.id + 'Nope')), anns
 
     # -- declarations
@@ -1199,8 +1229,11 @@ class NsGen(object):
             params = [(s[1], s[2], s[3]) for s in specs if s[1] and (s[2] or s[3])]
             ret = (ranns, gen_doc(rng, False)) if rty.get('k') != 'void' and (ranns or self.coin()) else None
             ia = [self.attrs_ann()] if self.coin(0.1) else []
-            if self.coin(0.05):
-                ia.append('(finish-func %s)' % rng.choice(WORDS))
+            if self.coin(0.12):
+                for a in ('finish-func', 'sync-func', 'async-func'):
+                    if self.coin(0.5):
+                        ia.append('(%s %s)' % (a, rng.choice(WORDS)))
+                        self.hit('callback:ann-' + a)
             self.add_comment(self.block(cname, params, ret, ia))
 
     def klass(self, iface=False):
@@ -1268,8 +1301,17 @@ class NsGen(object):
             ptypes = [rng.choice(['gint', 'gchararray', 'GObject', 'gpointer', 'gdouble', cname, 'GStrv', 'gboolean'] +
                                  [self.id + e for e in self.enums]) for _ in range(rng.randint(0, 3))]
             rt = rng.choice(['void', 'void', 'gboolean', 'gint', 'gchararray'])
+            arr = None
+            if self.coin(0.2):
+                # an array argument (and possibly an array return value) whose length is another argument
+                ptypes += ['gpointer', 'gint']
+                arr = (len(ptypes) - 2, len(ptypes) - 1, self.coin(0.5))
+                if arr[2]:
+                    rt = 'gpointer'
+                self.hit('signal:array-length')
+            # gdump lists the signal's own arguments only (no instance): GDumpParser names them object, p0, p1, …
             sigs.append((sn, ptypes, rt, '<signal name="%s" return="%s"%s>%s</signal>' %
-                         (sn, rt, fl, ''.join('<param type="%s"/>' % p for p in ['gpointer'] + ptypes))))
+                         (sn, rt, fl, ''.join('<param type="%s"/>' % p for p in ptypes)), arr))
             self.hit('signal')
         attrs = ''
         if not iface:
@@ -1287,7 +1329,7 @@ class NsGen(object):
             elif self.coin(0.15):
                 attrs += ' final="1"'
                 self.hit('class:final')
-        inner = ''.join(p[1] for p in props) + ''.join(s[3] for s in sigs)
+        inner = ''.join(p[1] for p in props) + ''.join(sg[3] for sg in sigs)
         if iface:
             inner += '<prerequisite name="%s"/>' % (self.id + rng.choice(self.classes) if self.classes and self.coin(0.3)
                                                      else 'GObject')
@@ -1353,15 +1395,28 @@ class NsGen(object):
                 if self.coin(0.1):
                     anns.append(self.attrs_ann())
                 self.add_comment(self.block('%s:%s' % (cname, pn), [], None, anns))
-        for sn, ptypes, rt, _x in sigs:
-            if self.coin(0.6):
-                pd = [('self', [], 'emitter')] + [('arg%d' % i, [], gen_doc(rng, False)) for i in range(len(ptypes))]
+        for sn, ptypes, rt, _x, arr in sigs:
+            if self.coin(0.6) or arr:
+                # names are taken from the block only when it has MORE parameters than the signal (the instance first)
+                short_block = self.coin(0.1) and not arr
+                pd = [('self', [], 'emitter')] if not short_block else []
+                for i in range(len(ptypes)):
+                    pa = []
+                    if arr and i == arr[0]:
+                        pa = ['(array length=arg%d)' % arr[1], '(element-type guint8)']
+                    elif self.coin(0.1):
+                        pa = [rng.choice(['(nullable)', '(transfer none)', '(type gint)'])] if ptypes[i] == 'gpointer' else []
+                    pd.append(('arg%d' % i, pa, gen_doc(rng, False)))
                 anns = [self.attrs_ann()] if self.coin(0.1) else []
                 if self.coin(0.15):
                     anns.append('(emitter %s)' % rng.choice(WORDS))
                     self.hit('ann-emitter')
-                ret = ([rng.choice(['(transfer full)', '(nullable)'])] if rt == 'gchararray' and self.coin() else [], 'r') \
-                    if rt != 'void' else None
+                if arr and arr[2]:
+                    ret = (['(array length=arg%d)' % arr[1], '(element-type guint8)', '(transfer none)'], 'r')
+                elif rt != 'void':
+                    ret = ([rng.choice(['(transfer full)', '(nullable)'])] if rt == 'gchararray' and self.coin() else [], 'r')
+                else:
+                    ret = None
                 self.add_comment(self.block('%s::%s' % (cname, sn), pd, ret, anns))
         return name
 
@@ -1464,6 +1519,19 @@ class NsGen(object):
                                    'line': self.nl()})
                 self.dump.append('<boxed name="%s" get-type="%s_get_type"/>' % (cname, sp))
                 self.hit('glib:boxed')
+                if self.coin(0.4):
+                    # no C struct: the type name resolves to the ast.Boxed itself
+                    self.records.append(self.camel(w))
+                    # (when the pairing as constructor / method is refused — varargs, a skipped instance … — the
+                    # function stays a static function of the boxed type: the known finding; hence the triggers)
+                    self.function(sp + '_new', ctor_of=self.camel(w))
+                    self.triggers.append(('boxed-static-function-dropped', 'drop-function', sp + '_new'))
+                    self.hit('glib:boxed:constructor')
+                    for _ in range(rng.randint(0, 2)):
+                        fn = '%s_%s' % (sp, self.fresh())
+                        self.function(fn, first=('self', P(T(cname))))
+                        self.triggers.append(('boxed-static-function-dropped', 'drop-function', fn))
+                        self.hit('glib:boxed:method')
                 if self.coin(0.15):
                     fn = '%s_%s' % (sp, self.fresh())
                     self.function(fn, documented=self.coin())
@@ -2001,7 +2069,12 @@ class RealFrag(object):
         root = ET.fromstring(data)
         el = root.find(scanpipe.q('namespace'))
         el = [k for k in el if _qn(k.tag) == ('union' if union else 'record')][0]
-        return ('ok', [et_to_tree(k) for k in el if _qn(k.tag) in self.MEMBER_TAGS], data)
+        trees = [et_to_tree(k) for k in el if _qn(k.tag) in self.MEMBER_TAGS]
+        for t in trees:
+            # an empty anonymous <record> / <union> is written as open tag, indentation, close tag
+            if t['tag'] in ('record', 'union') and t['text'] is not None and not t['text'].strip():
+                t['text'] = None
+        return ('ok', trees, data)
 
     def member_json(self, f):
         ast = self.ast
@@ -2016,7 +2089,8 @@ class RealFrag(object):
             body = {'k': 'typed', 'type': self.ty_json(f.type)}
         d = self.docs_json(f, False)
         d.update(name=f.name, body=body, readable=bool(f.readable), writable=bool(f.writable),
-                 bits=None if f.bits is None else str(f.bits), private=bool(f.private), version=f.version,
+                 bits=(str(f.bits) if f.bits else None) if isinstance(f.bits, int) else f.bits,   # `if field.bits:`
+                 private=bool(f.private), version=f.version,
                  skip=bool(f.skip), introspectable=bool(f.introspectable), deprecated=f.deprecated,
                  stability=f.stability)
         return d
@@ -2320,6 +2394,38 @@ def scanned_callables(m, ns, canon):
     return out
 
 
+def scanned_members(m, ns, canon):
+    """the field lists of every record / union of a namespace (anonymous ones included), as model JSON"""
+    ast = m.ast
+    rf = RealFrag.__new__(RealFrag)
+    rf.m, rf.ast = m, ast
+    out = []
+
+    def fix_paths(d):
+        if isinstance(d, dict):
+            if d.get('doc_pos'):
+                d['doc_pos']['filename'] = canon.rel(d['doc_pos']['filename'])
+            if d.get('pos'):
+                d['pos']['filename'] = canon.rel(d['pos']['filename'])
+            for v in d.values():
+                fix_paths(v)
+        elif isinstance(d, list):
+            for v in d:
+                fix_paths(v)
+        return d
+
+    def compound(n):
+        if n.fields:
+            out.append((n.name, fix_paths([rf.member_json(f) for f in n.fields])))
+        for f in n.fields:
+            if isinstance(f.anonymous_node, (ast.Record, ast.Union)):
+                compound(f.anonymous_node)
+    for n in ns.values():
+        if isinstance(n, (ast.Record, ast.Union)):
+            compound(n)
+    return out
+
+
 def vocab_pairs(text, acc):
     """(element, attribute) and (parent, child) pairs present in a GIR text"""
     from xml.etree import ElementTree as ET
@@ -2362,6 +2468,7 @@ def _run(ctx, cnt, rng, fast):
         ctx.report_failure('giscanner-import', 'giscanner (ast / girparser / girwriter) cannot be imported: %r\n%s'
                            % (e, traceback.format_exc()[-600:]), {'kind': 'import'})
         return
+    _inline_on_return_type()
     inc = setup_includes(fast)
     judge = Judge(cnt, fast, inc)
     pending = Pending(ctx)
@@ -2377,10 +2484,14 @@ def _run(ctx, cnt, rng, fast):
     # model-level check of scanned callables: are the theorems' side conditions scanner invariants?
     wf_queue = []
 
+    wfm_queue = []
+
     def queue_wf(ns, roots, origin, expect):
         try:
             for c in scanned_callables(m, ns, Canon(list(roots))):
                 wf_queue.append((origin, expect, ns.name, c))
+            for name, ms in scanned_members(m, ns, Canon(list(roots))):
+                wfm_queue.append((origin, expect, ns.name, name, ms))
         except Exception as e:  # noqa: an ast attribute the extraction reads is gone
             ctx.broken.append('fragment extraction from a scanned namespace failed (%s): %r' % (origin, e))
 
@@ -2703,6 +2814,29 @@ def _run(ctx, cnt, rng, fast):
                     if n_notwf <= 3:
                         ctx.broken.append('a side condition of the C07 theorems is not an invariant of scanner output: '
                                           'callable %r of %s fails %s: %s' % (c['name'], origin, k['not_wf'], short(c, 600)))
+        if wfm_queue:
+            if len(wfm_queue) > ctx.n(3000, 15000):
+                wfm_queue = rng.sample(wfm_queue, ctx.n(3000, 15000))
+            chk = ctx.driver.batch([{'op': 'c07.cycle_members', 'ns': nsname, 'members': ms}
+                                    for _o, _e, nsname, _n, ms in wfm_queue])
+            n_notwf = 0
+            for (origin, expect, nsname, name, ms), k in zip(wfm_queue, chk):
+                evaluations += 1
+                if k['wf']:
+                    cnt.hit('scanned-members:wf,field_only=%s' % k['field_only'])
+                    if k['field_only'] and k['write_ok'] and not (k['roundtrip'] and k['fixpoint']):
+                        ctx.broken.append('model contradicts C07_members_roundtrip_partial on the scanned compound %s of %s'
+                                          % (name, origin))
+                    if not k['field_only'] and k['write_ok'] and not k['roundtrip']:
+                        cnt.hit('scanned-members:model-predicts-the-misindexing-finding')
+                else:
+                    cnt.hit('scanned-members:not-wf')
+                    if 'map-array-child-dropped' in expect or origin.startswith('repo:gir/'):
+                        continue
+                    n_notwf += 1
+                    if n_notwf <= 3:
+                        ctx.broken.append('a side condition of the C07 member theorems is not an invariant of scanner '
+                                          'output: compound %r of %s, members %s: %s' % (name, origin, k['not_wf'], short(ms, 600)))
     except Exception as e:  # noqa
         ctx.broken.append('side-condition check could not run: %r' % (e, ))
 
@@ -2765,6 +2899,7 @@ def replay(ctx, rep):
     cnt = Counter()
     fast = fast_scratch(ctx)
     try:
+        _inline_on_return_type()
         inc = setup_includes(fast)
         judge = Judge(cnt, fast, inc)
         r = rep['replay']
